@@ -186,6 +186,15 @@ ApproveCancellation(S, m) ==
   ELSE LET S1 == ApproveWalk(S, m.ids) IN IF S1.err THEN Fail(S) ELSE [S1 EXCEPT !.q.rejected = @ \o m.ids]
 
 (***************************************************************************)
+(* MsgNewConsolidation.  m = [wf, parseOk, nOuts, payCur, voteOk]           *)
+(* A voted Bitcoin transaction that sweeps the relayer's own outputs into   *)
+(* ONE output paying the current relayer key.  It changes no bridge state   *)
+(* (the relayer module consumes a sequence number, Relayer.tla).            *)
+(***************************************************************************)
+NewConsolidation(S, m) ==
+  IF ~m.wf \/ ~m.parseOk \/ m.nOuts # 1 \/ ~m.payCur \/ ~m.voteOk THEN Fail(S) ELSE S
+
+(***************************************************************************)
 (* Execution-layer requests (inside the block message).                     *)
 (*  r = [withdraws: Seq [id, amount, price, addr, net, kind], rbf: Seq [id, price], cancel1: Seq id, *)
 (*       tax: Seq [rate, max], conf: Seq n, minDep: Seq n]                  *)
